@@ -8,7 +8,8 @@ Oracle: brute force over all rankings with ties (n <= 7, full minimiser set) / s
 """
 from .. import gen, model
 from ..lib import build_dataset, build_scheme, canon_ranking, jsonable_ranking, exc_label
-from .common import Discard, run_alg, well_formed, dataset_tags
+from .common import Discard, run_alg, well_formed, dataset_tags, apply_mutation
+from ..lib import canon_rankings
 
 ID = "C05"
 ENVS = ["absent", "present", "broken", "present"]
@@ -54,7 +55,10 @@ def gen_case(st, tier, env):
     if k.random() < 0.25 and scheme["B"][5] == scheme["T"][5]:
         scheme["B"][5] = scheme["T"][5] + 1.0  # favour the doubly-unranked asymmetry
         scheme["family"] += "/B5>T5"
-    return {"dataset": ds, "scheme": scheme}
+    case = {"dataset": ds, "scheme": scheme}
+    if k.random() < 0.2:
+        case["touch_then_mutate"] = gen.gen_mutation(w)  # aggregate once, edit the Dataset in place, then solve
+    return case
 
 
 def nontrivial(probes):
@@ -75,14 +79,20 @@ def calls_for(env):
 
 
 def run_case(case, ctx):
+    ds = build_dataset(case["dataset"])
     mr = model.normalise(case["dataset"]["rankings"])
+    if case.get("touch_then_mutate"):
+        warm = build_scheme(case["scheme"])
+        for a0 in ({"alg": "CopelandMethod"}, {"alg": "BordaCount"}, {"alg": "KwikSortRandom"}):
+            run_alg(a0, ds, warm, None, None)
+        apply_mutation(ds, case["touch_then_mutate"])
+        mr = canon_rankings(ds.rankings)
+        ctx.probe("touched_then_mutated")
     elems = model.universe(mr)
     B, T = case["scheme"]["B"], case["scheme"]["T"]
     cost = model.ref_cost(mr, elems, B, T)
     opt, mins = model.optimum(cost, want_minimisers=True)
     tags = dataset_tags(mr, case["scheme"])
-    # rankings disjoint from a non-trivial group of elements (the projection issue of the optimised paths)
-    ds = build_dataset(case["dataset"])
     sc = build_scheme(case["scheme"])
     ctx.event("world", model.canon(mr), B, T, ctx.env, opt)
     ctx.state([model.canon(mr), B, T])
